@@ -69,6 +69,96 @@ def run [DecidableEq V] (r : Region V) : List (Op V) → Option (Region V)
   | [] => some r
   | op :: ops => (step r op).bind (fun r' => run r' ops)
 
+/-! ### the repaired interval arithmetic with i64 positions
+
+`CweModel/Base/MemRegion.lean` computes interval ends in `Int`. The code (since the repair of the
+position-overflow panic) computes them in i128 (`interval_end`), which is exact, and turns an
+interval `[start, end)` into BTreeMap range bounds by `interval_bounds(start, end)`:
+`start..end` if `end` is an i64 and `start..` (no upper bound) otherwise. The definitions below
+mirror exactly that; `C05/Props.lean` proves that they coincide with the `Int` definitions on every
+region whose positions are representable in i64 (`stepI64_eq_step`). The driver runs these. -/
+
+/-- the value is an i64 -/
+def I64 (x : Int) : Prop := i64Min ≤ x ∧ x ≤ i64Max
+
+instance (x : Int) : Decidable (I64 x) := by unfold I64; infer_instance
+
+/-- all positions of the region are representable in i64 (true for every `BTreeMap<i64, T>`) -/
+def KeysI64 {α : Type} (r : BMap α) : Prop := ∀ c ∈ r, I64 c.1
+
+/-- no position of the region exceeds `i64::MAX` -/
+def UpperI64 {α : Type} (r : BMap α) : Prop := ∀ c ∈ r, c.1 ≤ i64Max
+
+/-- no position of the region lies below `i64::MIN` (what `merge_inner`, which starts its running
+range end at `i64::MIN`, needs) -/
+def LowerBounded {α : Type} (r : BMap α) : Prop := ∀ c ∈ r, i64Min ≤ c.1
+
+/-- `map.range(interval_bounds(lo, hi))`: `lo..hi` if `i64::try_from(hi)` succeeds, else `lo..` -/
+def rangeI64 {α : Type} (m : BMap α) (lo hi : Int) : BMap α :=
+  if i64Min ≤ hi ∧ hi ≤ i64Max then BMap.range m lo hi else m.filter (fun c => decide (lo ≤ c.1))
+
+/-- `MemRegion::clear_interval(position, size)` (`interval_end(prev_pos, prev_size) > position` is
+the `Int` comparison of `clearPrev`) -/
+def clearIntervalI64 (r : Region V) (position size : Int) : Region V :=
+  let r1 := clearPrev r position
+  let intersecting : List Int := (rangeI64 r1 position (position + size)).map (·.1)
+  intersecting.foldl (fun m index => BMap.remove m index) r1
+
+/-- "clear all cells from `position` upward": what `clear_interval` does when `position + size`
+exceeds `i64::MAX` -/
+def clearFrom (r : Region V) (position : Int) : Region V :=
+  let r1 := clearPrev r position
+  ((r1.filter (fun c => decide (position ≤ c.1))).map (·.1)).foldl (fun m index => BMap.remove m index) r1
+
+/-- `MemRegion::insert_at_byte_index(value, position)` -/
+def insertAtByteIndexI64 (r : Region V) (value : V) (position : Int) : Option (Region V) :=
+  let sizeInBytes := isize value
+  if sizeInBytes > 0 then
+    let r := clearIntervalI64 r position sizeInBytes
+    if !isTop value then some (BMap.insert r position value) else some r
+  else none
+
+/-- `MemRegion::remove(position, size_in_bytes)` -/
+def removeI64 (r : Region V) (position size : Int) : Option (Region V) :=
+  if size > 0 then some (clearIntervalI64 r position size) else none
+
+/-- `MemRegion::merge_write_top(position, size)` -/
+def mergeWriteTopI64 (r : Region V) (position : Int) (sz : Nat) : Region V :=
+  match BMap.get r position with
+  | some prev =>
+    if size prev = sz then storeMerged r position (merge prev (topOf prev))
+    else clearIntervalI64 r position (sz : Int)
+  | none => clearIntervalI64 r position (sz : Int)
+
+/-- `MemRegion::merge_values_intersecting_range_with_top(start, end)` with `end : i128`;
+`none` = `BTreeMap::range` panics because both bounds are given and `start > end` (see
+`mergeValuesIntersectingRangeWithTop` for the empty-map quirk) -/
+def mergeValuesIntersectingRangeWithTopI64 (r : Region V) (start end_ : Int) : Option (Region V) :=
+  let r1 := mergePrevWithTop r start
+  if (i64Min ≤ end_ ∧ end_ ≤ i64Max) ∧ end_ < start then (if r1.isEmpty then some r1 else none)
+  else
+    let intersecting : List (Int × V) :=
+      (rangeI64 r1 start end_).map (fun c => (c.1, merge c.2 (topOf c.2)))
+    some (intersecting.foldl (fun m c => storeMerged m c.1 c.2) r1)
+
+/-- `MemRegion::mark_interval_values_as_top(start, end, elem_size)` -/
+def markIntervalValuesAsTopI64 (r : Region V) (start end_ : Int) (elemSize : Nat) : Option (Region V) :=
+  mergeValuesIntersectingRangeWithTopI64 r start (end_ + (elemSize : Int))
+
+/-- one operation of the repaired code on a region with i64 positions (`merge_inner` computes its
+range ends in i128 and looks up the next entry by `(Excluded(index), Unbounded)`: that is the `Int`
+model `mergeInner`) -/
+def stepI64 [DecidableEq V] (r : Region V) : Op V → Option (Region V)
+  | .insert p v => insertAtByteIndexI64 r v p
+  | .remove p n => removeI64 r p n
+  | .mergeWriteTop p n => some (mergeWriteTopI64 r p n)
+  | .markInterval s e n => markIntervalValuesAsTopI64 r s e n
+  | op => step r op
+
+def runI64 [DecidableEq V] (r : Region V) : List (Op V) → Option (Region V)
+  | [] => some r
+  | op :: ops => (stepI64 r op).bind (fun r' => runI64 r' ops)
+
 /-! ### specification: the reference cell store -/
 
 /-- unsorted list of cells -/
